@@ -242,6 +242,11 @@ def run(ck: Check):
                     ck.obligation(f"correspondence:trace-accepted:scenario{sc['id']}", False,
                                   f"model rejects event #{v - 1}: {tr[v - 1] if v - 1 < len(tr) else None}; "
                                   f"context {tr[max(0, v - 6):v + 1]}")
+                    ck.violation(f"the real consumer group did something the group model (whose guards are the "
+                                 f"property's clauses) does not allow: scenario {sc['id']}, event #{v - 1} "
+                                 f"{tr[v - 1] if v - 1 < len(tr) else None} after {tr[max(0, v - 6):v - 1]}",
+                                 {"scenario": sc, "rejected_event_index": v - 1, "context": tr[max(0, v - 8):v + 1]},
+                                 signature=f"trace-rejected:{str(tr[v - 1] if v - 1 < len(tr) else '').split(' ')[0]}")
     ck.obligation("correspondence:all-group-traces-accepted-by-model", rejected == 0 and fail == 0,
                   f"{rejected} rejected, {fail} case files failed")
     ck.cov["traces_validated_against_impl"] = len(traces) - rejected
